@@ -409,8 +409,15 @@ class Check:
         self.note("TLC %s/%s: %s" % (os.path.basename(module_path), os.path.basename(cfg_path), r.summary()))
         return r
 
+    SHARD_LINES = 250000
+
     def validate(self, module_path, cfg_path, trace_path, n_exec=1, **kw):
-        v = validate_trace(module_path, cfg_path, trace_path, tag=self.prop + "_val", **kw)
+        with open(trace_path) as f:
+            nlines = sum(1 for _ in f)
+        if nlines > self.SHARD_LINES * 3 // 2:
+            v = self._validate_sharded(module_path, cfg_path, trace_path, nlines, **kw)
+        else:
+            v = validate_trace(module_path, cfg_path, trace_path, tag=self.prop + "_val", **kw)
         if v.error:
             raise Infra("trace validation error: " + v.error)
         self.note("validate %s: accepted=%s events=%d maxl=%d states=%d %.1fs" % (
@@ -418,6 +425,35 @@ class Check:
         if v.accepted:
             self.traces += n_exec
         return v
+
+    def _validate_sharded(self, module_path, cfg_path, trace_path, nlines, **kw):
+        """a very long log (TLC builds sets over 1..Len(Log)) is cut at Reset lines into shards that are validated one after
+        the other; the result is the first rejection, with its line number mapped back to the whole file"""
+        shards, cur, start, first = [], [], 1, 1
+        with open(trace_path) as f:
+            for i, ln in enumerate(f, 1):
+                cur.append(ln)
+                if ln.startswith('{"e":"Reset"}') or ln.startswith('{"e": "Reset"}'):
+                    if len(cur) >= self.SHARD_LINES:
+                        shards.append((first, cur))
+                        cur, first = [], i + 1
+        if cur:
+            shards.append((first, cur))
+        total = ValResult()
+        total.n, total.accepted, total.maxl, total.states, total.wall, total.out, total.error = nlines, True, nlines + 1, 0, 0.0, "", None
+        for k, (first, lines) in enumerate(shards):
+            sp = "%s.shard%d" % (trace_path, k)
+            with open(sp, "w") as f:
+                f.writelines(lines)
+            v = validate_trace(module_path, cfg_path, sp, tag="%s_val%d" % (self.prop, k), **kw)
+            total.states += v.states
+            total.wall += v.wall
+            os.unlink(sp)
+            if v.error or not v.accepted:
+                total.error, total.accepted, total.out = v.error, False, v.out
+                total.maxl = first - 1 + v.maxl
+                break
+        return total
 
     # ---- verdicts
     def save_replay(self, name, files):
